@@ -7,6 +7,15 @@ ROOT = os.path.dirname(os.path.dirname(os.path.abspath(__file__)))
 ALL = [f"C{i:02d}" for i in range(1, 21)]
 
 CLAIMED = {
+    "C06": dict(
+        text="Bounded symbolic execution (CrossHair/z3) of the real write_response/write_line -> parse_line/parse_response round trip (line-level alphabet, "
+             "exhaustive; sentinel reply detects desynchronisation), rejection of a mismatching final line, Code.matches on fully symbolic code and mask strings, "
+             "check_codes, the command() wait/expect loop, a real StreamReader cut at symbolic positions, and parse_command's verb/argument split.",
+        note="Trusted: CrossHair/z3; line content is exhaustive only over the stated line universe (free lines are searched, not exhausted). "
+             "Outside: mismatching non-final lines, non-ASCII mask characters.",
+        technique="bounded symbolic execution of the real Python code (CrossHair 0.0.110 + z3): encode/decode round-trip harness",
+        design_ref="DESIGN.md section 3 C06",
+    ),
     "C05": dict(
         text="Bounded symbolic execution (CrossHair/z3) of the real Server.dispatcher - one step per verb from a symbolic pre-state injected into the "
              "dispatcher's own Connection, plus 2-3 command sessions with a symbolic middle command - compared reply by reply, state by state and tree by tree "
